@@ -81,6 +81,21 @@ def gen(rng, tier):
                 yield "wb %s %d %d" % (t.txt(), r, opt)
         if t.kids is not None:
             yield "reraw %s %s" % (t.txt(), hx(rbytes(rng, rng.choice([1, 2, 10, 255, 256, 300]))))
+        yield "serd %s" % t.txt()
+        for r in sorted({need, need + 7, max(0, need - 1), 70000}):
+            yield "elserp %s %d" % (t.txt(), r)
+    # --- a value set two levels down: the middle element's encoding grows across the 255-octet form boundary, something follows it
+    for i in range(40 if tier == "quick" else 400):
+        g = [T(t_, 0, payload=rbytes(rng, rng.choice([0, 3, 40]))) for t_ in rng.sample([1, 2, 3, 4, 6], rng.randrange(1, 4))]
+        base_len = rng.choice([200, 240, 250, 253, 254, 255, 256, 300])
+        g.append(T(9, 0, payload=rbytes(rng, max(0, base_len - sum(len(k.enc()) for k in g) - 2))))
+        mid = T(rng.choice([1, 0x10, 0x123]), rng.randrange(4), kids=g)
+        sibs = [T(t_, rng.randrange(4), payload=rbytes(rng, rng.choice([0, 3, 30]))) for t_ in rng.sample([5, 7, 8, 0x200], rng.randrange(0, 3))]
+        kids = [mid] + sibs
+        rng.shuffle(kids)
+        outer = T(rng.choice([0x10, 0x801, 0x1f]), rng.randrange(4), kids=kids)
+        for t2, n2 in ((g[0].tag, rng.choice([0, 1, 20, 300])), (0x0b, rng.choice([1, 20, 60])), (9, 2), (9, base_len + 40)):
+            yield "elset2 %s %d %d %s" % (hx(outer.enc()), mid.tag, t2, hx(rbytes(rng, n2)))
     # --- the 16-bit boundary at every depth: content 65531..65540 built from children
     for depth in range(0, 4):
         for total in ([65531, 65535, 65536, 65537, 65540] if tier == "quick" else range(65528, 65545)):
@@ -99,6 +114,7 @@ def gen(rng, tier):
             for r in (need, 4 + 65536, 70000 + 4 * depth, need - 1):
                 yield "ser %s %d" % (t.txt(), r)
                 yield "elser %s %d" % (t.txt(), r)
+            yield "serd %s" % t.txt()
     # --- parsers: valid encodings, non-minimal headers, truncations, perturbations
     n_parse = 600 if tier == "quick" else 8000
     for i in range(n_parse):
@@ -146,6 +162,12 @@ def gen(rng, tier):
             if rng.random() < 0.5:
                 c.tag = rng.choice(tags)
             yield "elset %s %s" % (hx(e), hx(c.enc()))
+            # a sub element that grows from a short header to a long one (or shrinks back), with something behind it
+            if i % 4 == 0:
+                k0 = rng.choice(t.kids)
+                for newlen in (255, 256, 300, 3):
+                    yield "elset %s %s" % (hx(e), hx(T(k0.tag, k0.fl, payload=rbytes(rng, newlen)).enc()))
+                    yield "elseto %s %d %s" % (hx(e), k0.tag, hx(rbytes(rng, newlen)))
         if t.kids is not None and i % 3 == 0:
             # stray bytes after the last child: the nested view must be refused
             for extra in (b"\x00", b"\x01", b"\x80", b"\x05\x01"):
